@@ -123,6 +123,10 @@ macro_rules | `(tactic| hoare_modify) => `(tactic| apply wpE_modify)
 syntax "hoare_set" : tactic
 macro_rules | `(tactic| hoare_set) => `(tactic| apply wpE_set)
 
+/-- run on the facts that a call or a write has just added to the context; extended by `macro_rules` (default: nothing) -/
+syntax "hoare_after" : tactic
+macro_rules | `(tactic| hoare_after) => `(tactic| skip)
+
 /-- One step: looks at the head of the program in a goal `wpE prog Q E s`. -/
 elab "hoare_step" : tactic => withMainContext do
   let g ← getMainGoal
@@ -159,7 +163,7 @@ elab "hoare_step" : tactic => withMainContext do
         | (refine wpE_pureCall (by solve_by_elim (maxDepth := 10) (transparency := .reducible) using $(mkIdent `hspec)) ?k
            case' k => intro _)
         | (refine wpE_mono (by solve_by_elim (maxDepth := 10) (transparency := .reducible) using $(mkIdent `hspec)) ?k
-           case' k => intro _ _ _; destruct_ands)))
+           case' k => intro _ _ _; destruct_ands; hoare_after)))
     else
       throwError "hoare_step: unrecognised program {act}"
   | _ =>
